@@ -19,6 +19,7 @@ import (
 )
 
 type Clause struct {
+	Assumed bool // loop clause assumed at the header, not checked (input well-formedness; listed)
 	Label string
 	Expr  string
 	Props []string
@@ -61,6 +62,7 @@ type Contract struct {
 	Requires []Clause
 	Ensures  []Clause
 	BoundReq []Clause
+	CallAssumes []CallAssume
 	InAssumed []Clause // input well-formedness assumed for the body, not checked at call sites (listed)
 	Assumed  []Clause
 	Assigns  []string
@@ -74,6 +76,13 @@ type Contract struct {
 	Asserts  []Clause
 	File     string
 	Line     int
+}
+
+// CallAssume: a fact about external input assumed just before calls to a callee (not checked; listed).
+type CallAssume struct {
+	After  bool // assumed after the call returns (facts about what an external decoder produced)
+	Callee string
+	Clause Clause
 }
 
 type SpecFunc struct {
@@ -214,6 +223,13 @@ func (eng *Engine) loadContractFile(root, path string) error {
 		case "boundrequires":
 			// the stated bound of a bounded (unrolled) proof: assumed for the body, no obligation for callers
 			cur.BoundReq = append(cur.BoundReq, parseClause(rest, path, ln.n))
+		case "assumecall", "assumeafter":
+			// assumecall <callee substring> :: [label:] expr
+			i := strings.Index(rest, "::")
+			if i < 0 {
+				return fmt.Errorf("%s:%d: assumecall <callee> :: expr", path, ln.n)
+			}
+			cur.CallAssumes = append(cur.CallAssumes, CallAssume{After: kw == "assumeafter", Callee: strings.TrimSpace(rest[:i]), Clause: parseClause(rest[i+2:], path, ln.n)})
 		case "inputassumed":
 			// well-formedness of external input (e.g. metadata decoded from disk): assumed for the body, NOT an
 			// obligation at call sites; every use is listed as an assumption
@@ -252,6 +268,11 @@ func (eng *Engine) loadContractFile(root, path string) error {
 			cur.Loops[n] = curLoop
 		case "invariant":
 			curLoop.Invariants = append(curLoop.Invariants, parseClause(rest, path, ln.n))
+		case "assumeinv":
+			// a fact about external input assumed at the loop header on every iteration; NOT checked; listed
+			c := parseClause(rest, path, ln.n)
+			c.Assumed = true
+			curLoop.Invariants = append(curLoop.Invariants, c)
 		case "cut":
 			curLoop.Cut = true
 		case "decreases":
@@ -274,7 +295,7 @@ func (eng *Engine) loadContractFile(root, path string) error {
 		case "ghost":
 			if curLoop != nil {
 				// loop ghost: name = init step expr
-				re := regexp.MustCompile(`^(\w+)\s*(smt:\([^=]*\)|[A-Za-z_][\w.\[\]*]*)?\s*=\s*(.*?)\s+step\s+(.*)$`)
+				re := regexp.MustCompile(`^(\w+)\s*(smt:\([^=]*\)|[A-Za-z_*\[][\w.\[\]*]*)?\s*=\s*(.*?)\s+step\s+(.*)$`)
 				m := re.FindStringSubmatch(rest)
 				if m == nil {
 					return fmt.Errorf("%s:%d: loop ghost syntax: ghost k [type] = init step expr", path, ln.n)
@@ -1300,6 +1321,20 @@ func (e *Env) callExpr(x *ast.CallExpr) TV {
 			}
 		}
 		specErr("visited(): no enclosing loop ranges over a map")
+	case "isOpt":
+		// isOpt(v, "withX"): the function value v is a closure made by the option constructor withX of this package
+		v := e.eval(x.Args[0])
+		nm, _ := strconv.Unquote(x.Args[1].(*ast.BasicLit).Value)
+		obj, ok := e.pkg.Scope().Lookup(nm).(*types.Func)
+		if !ok {
+			specErr("isOpt: no function %s", nm)
+		}
+		ctor := u.eng.prog.FuncValue(obj)
+		if ctor == nil || len(ctor.AnonFuncs) != 1 {
+			specErr("isOpt: %s is not an option constructor with exactly one closure", nm)
+		}
+		u.s.declFun("closure_fn", []Sort{SInt}, SInt)
+		return TV{T: eq(sx("closure_fn", v.T), intLit(u.eng.funcID(ctor.AnonFuncs[0]))), Ty: tBool}
 	case "alloc":
 		return TV{T: u.alloc(e.st), Ty: tInt}
 	case "fresh":
